@@ -3,4 +3,5 @@ pub mod c01;
 pub mod c02;
 pub mod c03;
 pub mod c04;
+pub mod misc;
 pub mod simprops;
